@@ -19,7 +19,8 @@ type Solver struct {
 	Name    string
 	cmd     *exec.Cmd
 	in      io.WriteCloser
-	out     *bufio.Reader
+	lines   chan string
+	Kills   int
 	Queries int
 	Dur     time.Duration
 	log     *os.File
@@ -48,7 +49,20 @@ func NewSolver(name string, timeoutMs int, logPath string) *Solver {
 	if err := c.Start(); err != nil {
 		panic(fmt.Sprintf("cannot start solver %s: %v", bin, err))
 	}
-	s := &Solver{Name: name, cmd: c, in: in, out: bufio.NewReaderSize(out, 1<<16), timeout: timeoutMs}
+	s := &Solver{Name: name, cmd: c, in: in, lines: make(chan string, 256), timeout: timeoutMs}
+	go func() {
+		rd := bufio.NewReaderSize(out, 1<<16)
+		for {
+			line, err := rd.ReadString('\n')
+			if line != "" {
+				s.lines <- line
+			}
+			if err != nil {
+				close(s.lines)
+				return
+			}
+		}
+	}()
 	if logPath != "" {
 		s.log, _ = os.Create(logPath)
 	}
@@ -88,96 +102,96 @@ func (s *Solver) Close() {
 	}
 }
 
+// readLine waits for one line of solver output; the watchdog kills a solver
+// that ignores its own time limit (observed with z3's string solver).
+func (s *Solver) readLine(limit time.Duration) (string, bool) {
+	if s.dead {
+		return "", false
+	}
+	select {
+	case l, ok := <-s.lines:
+		if !ok {
+			s.dead = true
+			return "", false
+		}
+		return l, true
+	case <-time.After(limit):
+		s.Kills++
+		s.dead = true
+		if s.cmd != nil && s.cmd.Process != nil {
+			s.cmd.Process.Kill()
+		}
+		return "", false
+	}
+}
+
+func (s *Solver) limit() time.Duration {
+	return time.Duration(s.timeout)*time.Millisecond + 10*time.Second
+}
+
 // Check returns "sat", "unsat" or "unknown" (timeouts, errors, dead solver).
 func (s *Solver) Check() string {
 	t0 := time.Now()
 	s.Send("(check-sat)")
 	s.Queries++
 	defer func() { s.Dur += time.Since(t0) }()
+	sawError := false
 	for {
-		line, err := s.out.ReadString('\n')
-		if err != nil {
-			s.dead = true
+		line, ok := s.readLine(s.limit())
+		if !ok {
 			return "unknown"
 		}
 		line = strings.TrimSpace(line)
 		switch {
 		case line == "sat", line == "unsat":
+			if sawError {
+				return "unknown"
+			}
 			return line
 		case line == "unknown", line == "timeout":
 			return "unknown"
 		case strings.HasPrefix(line, "(error"):
 			s.Errors++
+			sawError = true
 			if s.log != nil {
 				fmt.Fprintln(s.log, "; ERROR: "+line)
 			}
 			if os.Getenv("SYMGO_DEBUG") != "" {
 				fmt.Fprintln(os.Stderr, "solver error:", line)
 			}
-			// an error before the check-sat answer: keep reading, the answer is not trusted
-			r := s.drainAnswer()
-			_ = r
-			return "unknown"
-		case line == "":
-		default:
-			// unexpected output (e.g. warnings); ignore
 		}
 	}
 }
 
-func (s *Solver) drainAnswer() string {
-	for {
-		line, err := s.out.ReadString('\n')
-		if err != nil {
-			s.dead = true
-			return "unknown"
-		}
-		line = strings.TrimSpace(line)
-		if line == "sat" || line == "unsat" || line == "unknown" || line == "timeout" {
-			return line
-		}
-	}
-}
-
-// readSexp reads one balanced s-expression (or an atom line) from the solver.
+// readSexp reads one balanced s-expression (possibly spanning lines).
 func (s *Solver) readSexp() string {
 	var sb strings.Builder
 	depth := 0
 	inStr := false
-	started := false
 	for {
-		r, _, err := s.out.ReadRune()
-		if err != nil {
-			s.dead = true
+		line, ok := s.readLine(s.limit())
+		if !ok {
 			return sb.String()
 		}
-		if !started {
-			if r == ' ' || r == '\n' || r == '\r' || r == '\t' {
+		sb.WriteString(line)
+		for _, r := range line {
+			if inStr {
+				if r == '"' {
+					inStr = false
+				}
 				continue
 			}
-			started = true
+			switch r {
+			case '"':
+				inStr = true
+			case '(':
+				depth++
+			case ')':
+				depth--
+			}
 		}
-		sb.WriteRune(r)
-		if inStr {
-			if r == '"' {
-				inStr = false
-			}
-			continue
-		}
-		switch r {
-		case '"':
-			inStr = true
-		case '(':
-			depth++
-		case ')':
-			depth--
-			if depth == 0 {
-				return sb.String()
-			}
-		case '\n':
-			if depth == 0 {
-				return strings.TrimSpace(sb.String())
-			}
+		if depth <= 0 && strings.TrimSpace(sb.String()) != "" {
+			return strings.TrimSpace(sb.String())
 		}
 	}
 }
@@ -399,3 +413,5 @@ func modelString(v string) (string, bool) {
 	}
 	return string(out), true
 }
+
+func (s *Solver) Dead() bool { return s.dead }
